@@ -49,7 +49,8 @@ def _run_variant(args):
 
     try:
         for rel, src in overlay.items():
-            compile(src, rel, "exec")  # "still compiles"; never executed
+            if rel.endswith(".py"):
+                compile(src, rel, "exec")  # "still compiles"; never executed
     except SyntaxError as e:
         return ("syntax", [], str(e))
     try:
